@@ -40,6 +40,13 @@ class Terms:
                 func = expand_helpers(model, owner, func, skip=("v_", "WriteTo", "Encode"))
             except Exception:
                 pass
+            # ... and with module-level helpers of the writer that are not its primitives (`_WriteSizePrefixed(out, payload)`)
+            try:
+                from .sem import expand_module_helpers
+
+                func = expand_module_helpers(model, owner.file, func, skip=("v_", "Write", "Pack"))
+            except Exception:
+                pass
         self.func = func
         self.buffers: Dict[str, List[tuple]] = {}
         self.local_buffers = set()
